@@ -217,7 +217,30 @@ def c06(run):
         "retransmit_cnt < max_retransmit with exactly one increment, and a given-up Confirmable is NACKed exactly once before deletion (R-RETRANS).")
 
 
+REPLY_FUNCS = ('handle_request', 'coap_dispatch', 'check_token_size', 'hnd_get_wellknown_lkd', 'coap_new_error_response', 'coap_send_ack_lkd',
+               'coap_send_rst_lkd', 'coap_send_message_type_lkd', 'coap_send_error_lkd', 'coap_send_internal', 'coap_send_lkd', 'coap_send')
+
+
+def c10(run):
+    from rules import r_ownpdu, r_reply
+    P = run.prog('rel')
+    for fn in REPLY_FUNCS[:3]:
+        run.require(P.has(fn), 'anchor function %s() of C10 not found' % fn)
+    r_ownpdu.run(run, P, only=set(REPLY_FUNCS))
+    r_reply.run(run, P)
+    run.min_instances('R-OWN-PDU', 5)
+    run.min_instances('R-REPLY-ONCE', 5)
+    run.assumptions = ASSUME_COMMON + ["the reply code table over the product of request features is NOT decided (a rule pinning the resp = 4.xx assignments would be a frozen "
+                                       "fragment firing on behaviour-preserving edits); handler selection and No-Response suppression are NOT decided"]
+    return run.finish(
+        "At most one direct reply per request datagram, decided structurally: the response object of handle_request and the error replies of "
+        "coap_dispatch / check_token_size are linear (created once, sent or deleted exactly once on every path, never used after being handed to "
+        "coap_send_internal; R-OWN-PDU), and no path of coap_dispatch / handle_request passes two emission points other than the Empty-ACK-then-"
+        "response pattern (R-REPLY-ONCE).")
+
+
 PROPS = {
+    'C10': c10,
     'C06': c06,
     'C08': c08,
     'C15': c15,
